@@ -21,7 +21,7 @@ from .absint import (ALL_KINDS, BIN, LEAF, UN, AbsRaise, BoundExceeded, Ident, I
                      PathResult, Rec, _MISSING, explore, Halt, HistoryDependence)
 from .heapterm import HeapView, NeedKind, kind_assignments, SHORT
 from .model import Program
-from .report import AnalysisError, VERIF
+from .report import AnalysisError, CACHE, VERIF
 from .summaries import Summaries
 
 RULE_OPTIONS = {
@@ -161,7 +161,7 @@ def analyse_rules(repo: Optional[str], tier: str, rules: Optional[List[str]] = N
     cfg = {"max_updepth": UPDEPTH[tier], "equal_chain": True}
     cfg.update(extra_cfg or {})
     digest = source_digest(prog, extra=json.dumps(cfg, sort_keys=True) + tier + _self_digest())
-    cache = VERIF / ".cache" / f"rulecases-{digest}.json"
+    cache = CACHE / f"rulecases-{digest}.json"
     if use_cache and cache.exists() and rules is None:
         try:
             return json.loads(cache.read_text())
